@@ -355,7 +355,7 @@ pub fn flex_layout(
     mut layout: ViewMutLayout<'_>,
 ) -> Result<(), Error> {
     let mut flex_total = 0.0;
-    let mut major_non_flex = 0;
+    let mut major_non_flex: usize = 0;
     let mut minor = direction.minor(ct.min());
     let ct_loosen = ct.loosen();
 
@@ -365,7 +365,8 @@ pub fn flex_layout(
         match child.flex {
             None => {
                 child.view.layout(ctx, ct_loosen, child_layout.view_mut())?;
-                major_non_flex += direction.major(child_layout.size());
+                major_non_flex =
+                    major_non_flex.saturating_add(direction.major(child_layout.size()));
                 minor = max(minor, direction.minor(child_layout.size()));
             }
             Some(flex) => flex_total += flex,
